@@ -43,6 +43,10 @@ REQUIRED_COUNTERS = ['on_threshold_eq', 'on_threshold_noeq', 'decimal_threshold'
 NAMES = Names()
 QUOTAS = ['hare', 'hare_rounded', 'droop', 'hagenbach_bischoff', 'hagenbach_bischoff_ceil',
           'hagenbach_bischoff_rounded', 'imperiali']
+BIG = [(500001, 10 ** 7), (1, 1000003), (333667, 10 ** 6 + 3), (1234567, 10 ** 8), (50000001, 10 ** 9)]   # denominators > 10^6
+HUGE_K = [2 ** 53 - 1, 2 ** 53, 2 ** 53 + 1, 10 ** 18, 10 ** 30, 10 ** 30 + 1, 10 ** 60]
+FLOATS_DYADIC = [0.25, 0.5, 0.125, 0.375, 0.0625]
+FLOATS_NONDYADIC = [0.05, 0.1, 0.3, 0.07]
 NICE = [(1, 20), (5, 100), (3, 100), (1, 10), (1, 3), (1, 4), (2, 5), (1, 2), (1, 1000), (7, 100), (1, 8), (1, 5)]
 
 
@@ -50,8 +54,14 @@ NICE = [(1, 20), (5, 100), (3, 100), (1, 10), (1, 3), (1, 4), (2, 5), (1, 2), (1
 # numbers
 
 def to_py(s, t):
-    """protocol string + type letter ('i', 'F', 'D') -> Python number of that type (exact)"""
+    """protocol string + type letter ('i', 'F', 'D', 'f' = float) -> Python number of that type (exact)"""
     f = Fraction(s)
+    if t == 'f':
+        try:
+            x = float(f)
+        except OverflowError:
+            return f
+        return x if Fraction(x) == f else f
     if t == 'i' and f.denominator == 1:
         return int(f)
     if t == 'D':
@@ -67,12 +77,24 @@ def dec_ok(f):
 
 
 def tletter(v):
-    return 'D' if isinstance(v, Decimal) else 'F' if isinstance(v, Fraction) else 'i'
+    return 'D' if isinstance(v, Decimal) else 'F' if isinstance(v, Fraction) else 'f' if isinstance(v, float) else 'i'
+
+
+def float_ok(f):
+    """the rational f is exactly a double"""
+    try:
+        return Fraction(float(f)) == f
+    except OverflowError:
+        return False
+
+
+def enc_num(v):
+    return num_str(Fraction(v)) if isinstance(v, float) else num_str(v)
 
 
 def enc_votes(pairs):
     """[(id, number)] -> protocol votes, types"""
-    return [[i, num_str(v)] for i, v in pairs], [tletter(v) for _, v in pairs]
+    return [[i, enc_num(v)] for i, v in pairs], [tletter(v) for _, v in pairs]
 
 
 def py_votes(votes, types, obj):
@@ -251,6 +273,89 @@ def open_threshold(case, total):
     if not ths:
         return None
     return max(ths) if case['take_higher'] else min(ths)
+
+
+INT_QUOTAS = ('droop', 'hare_rounded', 'hagenbach_bischoff_ceil', 'hagenbach_bischoff_rounded')
+
+
+def py_arith_exact(case):
+    """False when Python's own arithmetic on the numeric TYPES of an open-list case cannot represent the vote total,
+    total * jump_fraction or quota * quota_fraction exactly (Decimal context precision of 28 digits, float)"""
+    if case.get('op') != 'openlist':
+        return True
+    try:
+        types = case.get('_types') or ['F'] * len(case['votes'])
+        vals = [to_py(s, t) for (_, s), t in zip(case['votes'], types)]
+        tot = sum(vals)
+        ex_tot = sum((Fraction(s) for _, s in case['votes']), Fraction(0))
+        if Fraction(tot) != ex_tot:
+            return False
+        if case.get('jump_fraction') is not None:
+            jfp = to_py(case['jump_fraction'], case.get('_jftype', 'F'))
+            if isinstance(jfp, (Decimal, float)) or isinstance(tot, (Decimal, float)):
+                if Fraction(tot * jfp) != ex_tot * Fraction(case['jump_fraction']):
+                    return False
+        if case.get('quota') is not None:
+            qfp = to_py(case['quota_fraction'], case.get('_qftype', 'F'))
+            if isinstance(qfp, (Decimal, float)):
+                qv = quota_value(case['quota'], ex_tot, case['n'])
+                qpy = int(qv) if case['quota'] in INT_QUOTAS else qv
+                if Fraction(qpy * qfp) != qv * Fraction(case['quota_fraction']):
+                    return False
+    except (TypeError, OverflowError, ValueError, ArithmeticError):
+        return True
+    return True
+
+
+def spec_nbest(votes, n):
+    order = order_desc(votes)
+    if len(order) <= n:
+        return order
+    tau = sorted(votes.values(), reverse=True)[n - 1]
+    above = [c for c in order if votes[c] > tau]
+    level = [c for c in order if votes[c] == tau]
+    if len(above) + len(level) <= n:
+        return above + level
+    return above + [{'tie': sorted(level)}] * (n - len(above))
+
+
+def spec_openlist(case):
+    """what the property (with the documented overflow rules) determines for an open-list case — used for tags"""
+    votes = fvotes(case['votes'])
+    n, clist = case['n'], case['list']
+    thr = open_threshold(case, sum(votes.values()))
+    if thr is None:
+        return clist[:n]
+    J = [c for c in order_desc(votes) if passes(votes[c], thr, case['accept_equal'])]
+    if len(J) > n:
+        if case['list_precedence']:
+            if any(c not in clist for c in J):
+                return {'err': 'ValueError'}
+            top = sorted(J, key=clist.index)[:n]
+            return sorted(top, key=lambda c: -votes[c])
+        return J[:n]
+    el = list(J)
+    for c in clist:
+        if len(el) == n:
+            break
+        if c not in el:
+            el.append(c)
+    return el
+
+
+def spec_quota_selector(case):
+    votes = fvotes(case['votes'])
+    n = case['n']
+    q = quota_value(case['quota'], sum(votes.values()), n)
+    over = {c: v for c, v in votes.items() if passes(v, q, case['accept_equal'])}
+    if len(over) > n and case['on_more'] == 'error':
+        return {'err': 'VotingSystemError'}
+    return spec_nbest(over, n)
+
+
+def decoy_prop(p):
+    """value stored under the property name the bracketer does NOT read"""
+    return 0 if p is None else (p + 1) % 4
 
 
 # ------------------------------------------------------------------------------------------------
@@ -513,28 +618,38 @@ def build_cands(case):
     members = dict(map(tuple, case.get('members') or []))
     props = dict(map(tuple, case.get('props') or []))
     styles = dict(map(tuple, case.get('_styles') or []))
+    pn = case.get('_prop_name', 'minority')
+    other = 'minority' if pn != 'minority' else 'region'
     objs = {}
     for i in ids:
         if i in objs:
             continue
         k, p, st = members.get(i, 1), props.get(i), styles.get(i, 'party')
+        decoy = {other: decoy_prop(p)} if case.get('_prop_name') else {}
         if k > 1:
             o = vc.Coalition([vc.PoliticalParty(f'p{i}_{j}') for j in range(k)], name=f'c{i}')
             if p is not None:
-                o.minority = p
-        elif st == 'plain' and p is None:
-            o = f'c{i}'
+                setattr(o, pn, p)
+            for kk, vv in decoy.items():
+                setattr(o, kk, vv)
+        elif st == 'plain' and p is None and not decoy:
+            o = NAMES.n(i)                       # str / int / '' / Person, by the naming mode of the case
         elif st == 'bare':
             o = Bare(f'c{i}')
             if p is not None:
-                o.minority = p
+                setattr(o, pn, p)
+            for kk, vv in decoy.items():
+                setattr(o, kk, vv)
         else:
-            o = vc.PoliticalParty(f'c{i}', properties=({'minority': p} if p is not None else {}))
+            pr = dict(decoy)
+            if p is not None:
+                pr[pn] = p
+            o = vc.PoliticalParty(f'c{i}', properties=pr)
         objs[i] = o
     return objs
 
 
-def build_sel(sel):
+def build_sel(sel, pn='minority'):
     import votelib.evaluate.threshold as vt
     if sel is None:
         return None
@@ -544,13 +659,13 @@ def build_sel(sel):
     if k == 'rel':
         return vt.RelativeThreshold(to_py(sel['t'], sel.get('ty', 'F')), sel['eq'])
     if k == 'alt':
-        return vt.AlternativeThresholds([build_sel(p) for p in sel['parts']])
+        return vt.AlternativeThresholds([build_sel(p, pn) for p in sel['parts']])
     if k == 'coalition':
-        return vt.CoalitionMemberBracketer({kk: build_sel(s) for kk, s in sel['evs']}, build_sel(sel['default']))
+        return vt.CoalitionMemberBracketer({kk: build_sel(s, pn) for kk, s in sel['evs']}, build_sel(sel['default'], pn))
     if k == 'property':
-        return vt.PropertyBracketer('minority', {kk: build_sel(s) for kk, s in sel['evs']}, build_sel(sel['default']))
+        return vt.PropertyBracketer(pn, {kk: build_sel(s, pn) for kk, s in sel['evs']}, build_sel(sel['default'], pn))
     if k == 'prev':
-        return vt.PreviousGainThreshold(build_sel(sel['inner']))
+        return vt.PreviousGainThreshold(build_sel(sel['inner'], pn))
     raise ValueError(k)
 
 
@@ -566,62 +681,55 @@ def build_quota(case, key='quota'):
     return q
 
 
-def impl(case):
+def _evaluator(case):
+    """builds ONE votelib object from the configuration of `case`; the returned function evaluates it on the inputs
+    (votes, n, list, prev, candidate attributes) of any case of the same op and encodes the result"""
     import votelib.evaluate.core as vcore
     import votelib.evaluate.threshold as vt
     import votelib.evaluate.openlist as vo
     import votelib.evaluate.approval as vapp
     op = case['op']
     obj = NAMES.n
-    if op == 'abs_threshold':
-        votes = py_votes(case['votes'], case.get('_types'), obj)
-        t = to_py(case['threshold'], case.get('_ttype', 'F'))
-        return guarded(lambda: [NAMES.i(c) for c in vt.AbsoluteThreshold(t, case['accept_equal']).evaluate(votes)])
-    if op == 'rel_threshold':
-        votes = py_votes(case['votes'], case.get('_types'), obj)
-        t = to_py(case['threshold'], case.get('_ttype', 'F'))
-        return guarded(lambda: [NAMES.i(c) for c in vt.RelativeThreshold(t, case['accept_equal']).evaluate(votes)])
+    if op in ('abs_threshold', 'rel_threshold'):
+        cls = vt.AbsoluteThreshold if op == 'abs_threshold' else vt.RelativeThreshold
+        ev = cls(to_py(case['threshold'], case.get('_ttype', 'F')), case['accept_equal'])
+        return lambda inp: [NAMES.i(c) for c in ev.evaluate(py_votes(inp['votes'], inp.get('_types'), obj))]
     if op == 'seatless':
-        def run():
-            objs = build_cands(case)
+        sel = build_sel(case['sel'], case.get('_prop_name', 'minority'))
+
+        def run(inp):
+            objs = build_cands(inp)
             back = {id(o): i for i, o in objs.items()}
-            votes = py_votes(case['votes'], case.get('_types'), lambda i: objs[i])
-            prev = py_votes(case.get('prev') or [], None, lambda i: objs[i])
+            votes = py_votes(inp['votes'], inp.get('_types'), lambda i: objs[i])
+            prev = py_votes(inp.get('prev') or [], None, lambda i: objs[i])
             prev = {c: (int(v) if v.denominator == 1 else v) for c, v in prev.items()}
-            sel = build_sel(case['sel'])
             if isinstance(sel, (vt.AlternativeThresholds, vt.PreviousGainThreshold)):
                 res = sel.evaluate(votes, prev_gains=prev)
             else:
                 res = sel.evaluate(votes)
             return [back[id(c)] if id(c) in back else NAMES.i(c) for c in res]
-        return guarded(run)
+        return run
     if op == 'quota_selector':
-        votes = py_votes(case['votes'], case.get('_types'), obj)
-        return guarded(lambda: enc_selection(
-            vapp.QuotaSelector(build_quota(case), accept_equal=case['accept_equal'],
-                               on_more_over_quota=case['on_more']).evaluate(votes, case['n']), NAMES))
+        ev = vapp.QuotaSelector(build_quota(case), accept_equal=case['accept_equal'], on_more_over_quota=case['on_more'])
+        return lambda inp: enc_selection(ev.evaluate(py_votes(inp['votes'], inp.get('_types'), obj), inp['n']), NAMES)
     if op == 'openlist':
-        def run():
-            votes = py_votes(case['votes'], case.get('_types'), obj)
-            jf = to_py(case['jump_fraction'], case.get('_jftype', 'F')) if case.get('jump_fraction') is not None else None
-            ev = vo.ThresholdOpenList(
-                jump_fraction=jf, quota_function=build_quota(case),
-                quota_fraction=to_py(case['quota_fraction'], case.get('_qftype', 'F')),
-                take_higher=case['take_higher'], accept_equal=case['accept_equal'],
-                list_precedence=case['list_precedence'])
-            return [NAMES.i(c) for c in ev.evaluate(votes, case['n'], [obj(i) for i in case['list']])]
-        return guarded(run)
+        jf = to_py(case['jump_fraction'], case.get('_jftype', 'F')) if case.get('jump_fraction') is not None else None
+        ev = vo.ThresholdOpenList(
+            jump_fraction=jf, quota_function=build_quota(case),
+            quota_fraction=to_py(case['quota_fraction'], case.get('_qftype', 'F')),
+            take_higher=case['take_higher'], accept_equal=case['accept_equal'],
+            list_precedence=case['list_precedence'])
+        return lambda inp: [NAMES.i(c) for c in ev.evaluate(py_votes(inp['votes'], inp.get('_types'), obj), inp['n'],
+                                                            [obj(i) for i in inp['list']])]
     if op == 'tiebreak':
-        def run():
-            votes = py_votes(case['votes'], case.get('_types'), obj)
-            if case['inner'] == 'plurality':
-                inner = vcore.Plurality()
-            else:
-                inner = vapp.QuotaSelector(build_quota(case, 'inner'), accept_equal=case['accept_equal'],
-                                           on_more_over_quota='select')
-            res = vo.ListOrderTieBreaker(inner).evaluate(votes, case['n'], [obj(i) for i in case['list']])
-            return enc_selection(res, NAMES)
-        return guarded(run)
+        if case['inner'] == 'plurality':
+            inner = vcore.Plurality()
+        else:
+            inner = vapp.QuotaSelector(build_quota(case, 'inner'), accept_equal=case['accept_equal'],
+                                       on_more_over_quota='select')
+        ev = vo.ListOrderTieBreaker(inner)
+        return lambda inp: enc_selection(ev.evaluate(py_votes(inp['votes'], inp.get('_types'), obj), inp['n'],
+                                                     [obj(i) for i in inp['list']]), NAMES)
     if op == 'alt_ranks':
         class Fixed:
             def __init__(self, res):
@@ -629,16 +737,46 @@ def impl(case):
 
             def evaluate(self, votes):
                 return list(self.res)
-        def run():
-            ev = vt.AlternativeThresholds([Fixed([obj(i) for i in r]) for r in case['results']])
-            return [NAMES.i(c) for c in ev.evaluate({})]
-        return guarded(run)
+        return lambda inp: [NAMES.i(c) for c in
+                            vt.AlternativeThresholds([Fixed([obj(i) for i in r]) for r in inp['results']]).evaluate({})]
     if op == 'break_by_list':
-        def run():
-            el = [vcore.Tie(obj(i) for i in x['tie']) if isinstance(x, dict) else obj(x) for x in case['elected']]
-            return [NAMES.i(c) for c in vcore.Tie.break_by_list(el, [obj(i) for i in case['breaker']])]
-        return guarded(run)
+        def run(inp):
+            el = [vcore.Tie(obj(i) for i in x['tie']) if isinstance(x, dict) else obj(x) for x in inp['elected']]
+            return [NAMES.i(c) for c in vcore.Tie.break_by_list(el, [obj(i) for i in inp['breaker']])]
+        return run
     raise ValueError(op)
+
+
+def impl(case):
+    """`_warm_cfg` (configuration keys): a differently configured object of the same class is evaluated first;
+    `_warm` (input keys): the SAME object is first evaluated on other inputs (its result or exception is discarded);
+    then the observable is the evaluation on the inputs of the case."""
+    def run():
+        if case.get('_warm_cfg'):
+            other = dict(case)
+            other.update(case['_warm_cfg'])
+            try:
+                _evaluator(other)(other)
+            except Exception:       # noqa
+                pass
+        ev = _evaluator(case)
+        if case.get('_warm'):
+            w = dict(case)
+            w.update(case['_warm'])
+            try:
+                ev(w)
+            except Exception:       # noqa
+                pass
+        return ev(case)
+    return guarded(run)
+
+
+def signature(case, clause):
+    """known findings are matched by op:clause, except the input class on which Python's Decimal arithmetic itself is
+    inexact (more than 28 significant digits needed) — one signature for all clauses there"""
+    if case.get('op') == 'openlist' and not py_arith_exact(case):
+        return 'openlist:decimal_context_rounding'
+    return f"{case.get('op')}:{clause}"
 
 
 def compare(case, iobs, mobs):
@@ -658,6 +796,10 @@ def compare(case, iobs, mobs):
             pos += len(g)
         return None if pos == len(iobs) else f'impl={json.dumps(iobs)} model={json.dumps(mobs)}'
     if canon(iobs) == canon(mobs):
+        return None
+    if case['op'] == 'openlist' and not py_arith_exact(case) and oracle(case, iobs) and not oracle(case, mobs):
+        # the implementation computes the threshold in Decimal/float arithmetic that cannot hold it exactly and its
+        # answer violates the property (reported through the oracle as a known finding); the exact model is right
         return None
     if case['op'] == 'seatless' and isinstance(iobs, list) and isinstance(mobs, list) \
             and sorted(iobs) == sorted(mobs) and 'alt' in sel_kinds(case['sel']):
@@ -694,6 +836,8 @@ def nontrivial(case, obs):
 
 def _py_num(s, t):
     v = to_py(s, t)
+    if isinstance(v, float):
+        return repr(v)
     return f"Decimal('{v}')" if isinstance(v, Decimal) else (f'Fraction({v.numerator}, {v.denominator})' if isinstance(v, Fraction) else repr(v))
 
 
@@ -717,6 +861,17 @@ def _py_sel(sel):
 
 def describe(case):
     """the Python call of a case, as text"""
+    txt = _describe(case)
+    if case.get('_warm_cfg'):
+        txt = f"# first a differently configured object of the class: {json.dumps(case['_warm_cfg'])}\n" + txt
+    if case.get('_warm'):
+        txt += f"\n# the same object was first evaluated on the inputs {json.dumps(case['_warm'])}"
+    if case.get('_names') or case.get('_prop_name'):
+        txt += f"\n# candidate naming mode {case.get('_names', 'str')}, property name {case.get('_prop_name', 'minority')}"
+    return txt
+
+
+def _describe(case):
     op = case['op']
     if op == 'alt_ranks':
         return ('AlternativeThresholds([Fixed(r) for r in ' + repr([[f'c{i}' for i in r] for r in case['results']])
@@ -785,6 +940,11 @@ def _sub_selectors(sel):
 
 def shrink_candidates(case):
     op = case['op']
+    for k in ('_warm', '_warm_cfg'):
+        if case.get(k):
+            c = dict(case)
+            del c[k]
+            yield c
     if op == 'alt_ranks':
         rs = case['results']
         for i in range(len(rs)):
@@ -840,13 +1000,15 @@ def _shuffled(rng, xs):
     return xs
 
 
-def _pick_threshold_type(rng, t):
+def _pick_threshold_type(rng, t, allow_float=True):
     """protocol string + type letter for a threshold value t (Fraction)"""
-    opts = ['F']
+    opts = ['F', 'F']
     if t.denominator == 1:
-        opts += ['i', 'i']
+        opts += ['i', 'i', 'i']
     if dec_ok(t):
-        opts += ['D', 'D']
+        opts += ['D', 'D', 'D']
+    if allow_float and float_ok(t):
+        opts += ['f']
     return num_str(t), rng.choice(opts)
 
 
@@ -917,9 +1079,16 @@ def gen_rel_random(rng):
 
 def gen_abs(rng):
     m = rng.randint(1, 8)
-    kind = rng.choice(['int', 'int', 'frac', 'dec', 'big'])
+    kind = rng.choice(['int', 'int', 'frac', 'dec', 'big', 'float', 'huge'])
     if kind == 'int':
         vals = [rng.randint(0, 12) for _ in range(m)]
+    elif kind == 'float':
+        vals = [rng.choice([0.0, 0.5, 1.4, 2.5, 2.5, 3.0, 0.1, 7.25]) for _ in range(m)]
+        if rng.random() < 0.5:
+            vals = [rng.choice([Fraction(v), Decimal(v), v, v]) for v in vals]     # the same numbers in other types
+    elif kind == 'huge':
+        base = rng.choice(HUGE_K)
+        vals = [base + rng.choice([-1, 0, 0, 1, 2]) for _ in range(m)]
     elif kind == 'frac':
         vals = [Fraction(rng.randint(-4, 24), rng.choice([1, 2, 3, 4])) for _ in range(m)]
     elif kind == 'dec':
@@ -1006,6 +1175,9 @@ def gen_seatless(rng, force=None):
             opts.append('plain')
         styles.append([i, rng.choice(opts)])
     tags = ['seatless']
+    extra = {}
+    if 'property' in kinds and rng.random() < 0.6:
+        extra['_prop_name'] = rng.choice(['region', 'region', 'minority'])     # the other name carries decoy values
     if 'alt' in kinds:
         tags.append('alternative')
     if 'coalition' in kinds:
@@ -1014,8 +1186,8 @@ def gen_seatless(rng, force=None):
         tags += ['bracketer', 'bracketer_property']
     if 'prev' in kinds:
         tags.append('prev_gain')
-    return {'op': 'seatless', 'sel': sel, 'votes': votes, '_types': types, 'prev': prev, 'members': members,
-            'props': props, '_styles': styles, '_tags': tags}
+    return dict({'op': 'seatless', 'sel': sel, 'votes': votes, '_types': types, 'prev': prev, 'members': members,
+                 'props': props, '_styles': styles, '_tags': tags}, **extra)
 
 
 def gen_quota_selector(rng):
@@ -1039,23 +1211,45 @@ def gen_quota_selector(rng):
             'accept_equal': rng.random() < 0.5, 'on_more': rng.choice(['select', 'select', 'error']), '_tags': tags}
 
 
-def gen_openlist(rng, directed=True, m=None):
+QF_RICH = [('1', 'i'), ('1', 'F'), ('1/2', 'F'), ('8/5', 'F'), ('3/50', 'F'), ('27/100', 'D'), ('1/2', 'D'), ('1/2', 'f'),
+           ('0', 'i'), ('0', 'F'), ('0', 'D'), ('500001/10000000', 'D'), ('1/1000003', 'F'), ('2', 'i'), ('1/4', 'f')]
+
+
+def _demote_inexact(case):
+    """keep Python's own arithmetic exact: a float / Decimal parameter whose product cannot be held exactly becomes the
+    same number as a Fraction (the inexact Decimal class has its own directed generator)"""
+    if not py_arith_exact(case):
+        vt = set(case.get('_types') or [])
+        if 'D' not in vt:
+            if case.get('_jftype') in ('f', 'D'):
+                case['_jftype'] = 'F'
+            if case.get('_qftype') in ('f', 'D'):
+                case['_qftype'] = 'F'
+    return case
+
+
+def gen_openlist(rng, directed=True, m=None, rich=False, huge=False):
     m = m or rng.randint(1, 8)
     ids = list(range(m))
     clist = _shuffled(rng, ids)
     n = rng.randint(1, m)
     vtype = rng.choices(['i', 'F', 'D'], [0.75, 0.2, 0.05])[0]
+    if huge:
+        vtype = 'i'
     # jump fraction
     jf, jft = None, 'F'
     r = rng.random()
     if vtype == 'D':
         r = min(r, 0.69)
     if r < 0.7:
-        f = Fraction(*rng.choice(NICE)) if rng.random() < 0.9 else Fraction(rng.choice([0, 1]))
+        if rich:
+            f = Fraction(*rng.choice(NICE + BIG + BIG)) if rng.random() < 0.8 else Fraction(rng.choice([0, 0, 1]))
+        else:
+            f = Fraction(*rng.choice(NICE)) if rng.random() < 0.9 else Fraction(rng.choice([0, 1]))
         jf, jft = _pick_threshold_type(rng, f)
         if vtype == 'F' and jft == 'D':
             jft = 'F'                 # Fraction * Decimal is a TypeError in Python
-        if vtype == 'D' and jft == 'F':
+        if vtype == 'D' and jft in ('F', 'f'):
             jft = 'D' if dec_ok(f) else 'i'
             if jft == 'i' and f.denominator != 1:
                 jf, jft = '1/4', 'D'
@@ -1067,7 +1261,12 @@ def gen_openlist(rng, directed=True, m=None):
         else:
             quota = rng.choice(QUOTAS + ['hare', 'hare', 'droop'])
             qmode = rng.choice(['name', 'callable'])
-    qf, qft = rng.choice([('1', 'i'), ('1', 'i'), ('1', 'F'), ('1/2', 'F'), ('1/2', 'F')])
+    if rich:
+        qf, qft = rng.choice(QF_RICH)
+        if qft == 'D' and quota not in INT_QUOTAS:
+            qft = 'F'                 # Fraction * Decimal is a TypeError in Python
+    else:
+        qf, qft = rng.choice([('1', 'i'), ('1', 'i'), ('1', 'F'), ('1/2', 'F'), ('1/2', 'F')])
     case = {'op': 'openlist', 'n': n, 'list': clist, 'jump_fraction': jf, '_jftype': jft, 'quota': quota,
             '_quota_mode': qmode, 'quota_fraction': qf, '_qftype': qft,
             'take_higher': rng.random() < 0.5, 'accept_equal': rng.random() < 0.5,
@@ -1075,6 +1274,10 @@ def gen_openlist(rng, directed=True, m=None):
     # votes: total first, the threshold depends on the total and n only
     den = 1 if vtype == 'i' else rng.choice([1, 2, 4]) if vtype == 'D' else rng.choice([1, 2, 3])
     V = rng.randint(1, 12) * rng.choice([1, 1, n, n + 1, 20, 100, 10 ** 20]) * rng.choice([1, 2, 10])
+    if huge:
+        V = rng.randint(1, 12) * rng.choice(HUGE_K) * rng.choice([1, n, n + 1, 20])
+    if rich and jf is not None and Fraction(jf).denominator > 1000 and vtype != 'D':
+        V = Fraction(jf).denominator * rng.randint(1, 12) * rng.choice([1, 1, n + 1, 10 ** 20])   # t*V integral
     thr = open_threshold(case, Fraction(V))
     voters = list(ids)
     if rng.random() < 0.2 and m > 1:
@@ -1098,10 +1301,168 @@ def gen_openlist(rng, directed=True, m=None):
     tags = ['openlist']
     if rng.random() < 0.04:
         pairs.append((m, rng.choice(vals) if vals else 1))        # somebody who is not on the list
-        tags.append('off_list')
     case['votes'], case['_types'] = enc_votes(pairs)
     case['_tags'] = tags
-    return case
+    return _demote_inexact(case)
+
+
+def gen_decimal_context(rng):
+    """int votes, Decimal jump_fraction / quota_fraction, totals so large that total*fraction needs more than the 28
+    significant digits of the default Decimal context, one candidate exactly on the exact threshold"""
+    for _ in range(50):
+        m = rng.randint(2, 5)
+        ids = list(range(m))
+        n = rng.randint(1, m - 1)
+        use_q = rng.random() < 0.4
+        p, q = rng.choice([(1, 20), (1, 4), (500001, 10 ** 7), (3, 100)])
+        case = {'op': 'openlist', 'n': n, 'list': _shuffled(rng, ids), 'jump_fraction': None, '_jftype': 'F',
+                'quota': None, '_quota_mode': rng.choice(['name', 'callable']), 'quota_fraction': '1', '_qftype': 'i',
+                'take_higher': False, 'accept_equal': rng.random() < 0.5, 'list_precedence': rng.random() < 0.5}
+        if use_q:
+            case['quota'] = 'droop'
+            case['quota_fraction'], case['_qftype'] = num_str(Fraction(p, q)), 'D'
+        else:
+            case['jump_fraction'], case['_jftype'] = num_str(Fraction(p, q)), 'D'
+        V = q * (n + 1) * (rng.choice([10 ** 30, 10 ** 28, 10 ** 40]) + rng.randint(1, 99))
+        thr = open_threshold(case, Fraction(V))
+        if thr.denominator != 1 or not (0 <= thr <= V):
+            continue
+        vals = _shuffled(rng, boundary_values(rng, V, int(thr), m))[:m]
+        if sum(vals) != V:
+            continue
+        case['votes'], case['_types'] = enc_votes(list(zip(_shuffled(rng, ids), vals)))
+        case['_tags'] = ['openlist']
+        if not py_arith_exact(case):
+            return case
+    return None
+
+
+def gen_numeric(rng):
+    """thresholds with denominators above 10^6 (Fraction and 7+ decimals), floats (dyadic and not), falsy thresholds,
+    each with a candidate exactly on the boundary; totals up to 10^60"""
+    kind = rng.choice(['rel_big', 'rel_big', 'rel_float', 'rel_float', 'abs_float', 'falsy', 'falsy', 'rel_huge', 'rel_huge'])
+    eq = rng.random() < 0.5
+    if kind in ('rel_big', 'rel_float', 'rel_huge'):
+        if kind == 'rel_big':
+            t = Fraction(*rng.choice(BIG))
+            tt = rng.choice(['D', 'F']) if dec_ok(t) else 'F'
+            k = rng.randint(1, 12) * rng.choice([1, 1, 10 ** 6, 10 ** 25])
+        elif kind == 'rel_float':
+            t = Fraction(rng.choice(FLOATS_DYADIC + FLOATS_NONDYADIC))
+            tt = 'f'
+            k = rng.randint(1, 12)
+        else:
+            t = Fraction(*rng.choice(NICE + BIG))
+            tt = rng.choice(['D', 'F']) if dec_ok(t) else 'F'
+            k = rng.choice(HUGE_K) * rng.randint(1, 3)
+        V, on = t.denominator * k, t.numerator * k
+        vals = _shuffled(rng, boundary_values(rng, V, on, rng.randint(2, 6)))
+        if tt == 'f' and rng.random() < 0.3:
+            # the decimal reading of a non-dyadic float: 5 of 100 is NOT on the threshold 0.05 (a double slightly above)
+            vals = [5, 95] if t == Fraction(0.05) else vals
+        votes, types = enc_votes(list(enumerate(vals)))
+        return {'op': 'rel_threshold', 'votes': votes, '_types': types, 'threshold': num_str(t), '_ttype': tt,
+                'accept_equal': eq, '_tags': ['numeric']}
+    if kind == 'abs_float':
+        x = rng.choice([2.5, 1.4, 0.1, 3.0, 0.0])
+        vals = [rng.choice([x, Fraction(x), Decimal(x), Fraction(x) + 1, Fraction(x) - Fraction(1, 10 ** 12), 2, 0])
+                for _ in range(rng.randint(1, 6))]
+        votes, types = enc_votes(list(enumerate(vals)))
+        return {'op': 'abs_threshold', 'votes': votes, '_types': types, 'threshold': num_str(Fraction(x)), '_ttype': 'f',
+                'accept_equal': eq, '_tags': ['numeric']}
+    # falsy thresholds 0, Fraction(0), Decimal('0'), 0.0 with zero-vote candidates
+    m = rng.randint(2, 6)
+    vals = [0, 0] + [rng.randint(0, 9) for _ in range(m - 2)]
+    if sum(vals) == 0:
+        vals.append(4)
+    votes, types = enc_votes(list(enumerate(_shuffled(rng, vals))))
+    return {'op': rng.choice(['rel_threshold', 'abs_threshold']), 'votes': votes, '_types': types, 'threshold': '0',
+            '_ttype': rng.choice(['i', 'F', 'D', 'f']), 'accept_equal': eq, '_tags': ['numeric']}
+
+
+def gen_falsy_openlist(rng):
+    """jump_fraction / quota_fraction given as 0, Fraction(0), Decimal('0'): the threshold is zero, every candidate with
+    votes jumps (and the zero-vote ones too when equality is accepted)"""
+    c = gen_openlist(rng, directed=False)
+    if rng.random() < 0.5 or c['quota'] is None:
+        c['jump_fraction'], c['_jftype'] = '0', rng.choice(['i', 'F', 'D'])
+        if 'F' in c['_types'] and c['_jftype'] == 'D':
+            c['_jftype'] = 'F'
+    else:
+        c['quota_fraction'], c['_qftype'] = '0', rng.choice(['i', 'F', 'D'] if c['quota'] in INT_QUOTAS else ['i', 'F'])
+    if c['votes'] and rng.random() < 0.7:
+        c['votes'][-1][1] = '0'
+        if len(c['votes']) > 2:
+            c['votes'][0][1] = '0'
+    return _demote_inexact(c)
+
+
+def gen_struct(rng):
+    """ties of 3+ members from which 2+ seats are drawn; two or more zero-vote candidates; lists and votes that do not
+    name the same people"""
+    kind = rng.choice(['tie3', 'tie3', 'zeros_rel', 'zeros_open', 'mismatch'])
+    if kind == 'tie3':
+        a, L = rng.randint(0, 2), rng.randint(3, 5)
+        d = rng.randint(2, L - 1)
+        below = rng.randint(0, 2)
+        vals = [5 + i for i in range(a)] + [3] * L + [rng.randint(0, 2) for _ in range(below)]
+        ids = list(range(len(vals)))
+        pairs = list(zip(_shuffled(rng, ids), vals))
+        votes, types = enc_votes(pairs)
+        return {'op': 'tiebreak', 'votes': votes, '_types': types, 'n': a + d, 'list': _shuffled(rng, ids),
+                'inner': 'plurality', 'accept_equal': True, '_tags': ['tiebreak', 'struct']}
+    if kind == 'zeros_rel':
+        c = gen_rel_boundary(rng)
+        k = len(c['votes'])
+        c['votes'] += [[k, '0'], [k + 1, '0']]
+        c['_types'] += ['i', 'i']
+        c['_tags'] = ['rel_boundary', 'struct']
+        return c
+    c = gen_openlist(rng)
+    m = len(c['list'])
+    if kind == 'zeros_open':
+        c['votes'] += [[m, '0'], [m + 1, '0']]
+        c['_types'] += [c['_types'][0] if c['_types'] else 'i'] * 2
+        c['list'] = _shuffled(rng, c['list'] + [m, m + 1])
+    else:
+        # the list names two people without votes, and a voter is missing from the list
+        c['list'] = _shuffled(rng, c['list'] + [m, m + 1])
+        if c['votes']:
+            c['votes'].append([m + 2, c['votes'][0][1]])
+            c['_types'].append(c['_types'][0])
+    c['_tags'] = ['openlist', 'struct']
+    return _demote_inexact(c)
+
+
+INPUT_KEYS = {'abs_threshold': ['votes', '_types'], 'rel_threshold': ['votes', '_types'],
+              'quota_selector': ['votes', '_types', 'n'], 'openlist': ['votes', '_types', 'n', 'list'],
+              'tiebreak': ['votes', '_types', 'n', 'list'],
+              'seatless': ['votes', '_types', 'prev', 'members', 'props', '_styles']}
+CONFIG_KEYS = {'abs_threshold': ['threshold', '_ttype', 'accept_equal'], 'rel_threshold': ['threshold', '_ttype', 'accept_equal'],
+               'quota_selector': ['quota', '_quota_mode', 'accept_equal', 'on_more'],
+               'openlist': ['jump_fraction', '_jftype', 'quota', '_quota_mode', 'quota_fraction', '_qftype', 'take_higher',
+                            'accept_equal', 'list_precedence'],
+               'tiebreak': ['inner', '_quota_mode', 'accept_equal'], 'seatless': ['sel', '_prop_name']}
+
+
+def gen_twice(rng):
+    """the same object evaluated twice (other inputs first), optionally after a differently configured object"""
+    g = rng.choice([gen_rel_boundary, gen_abs, gen_seatless, gen_quota_selector, gen_openlist, gen_openlist, gen_tiebreak])
+    c, o = g(rng), g(rng)
+    if rng.random() < 0.25 and c['op'] == 'openlist':
+        # first an evaluation that raises: more jumpers than seats, list precedence, a jumper who is not on the list
+        c['list_precedence'] = True
+        if c['jump_fraction'] is None and c['quota'] is None:
+            c['jump_fraction'], c['_jftype'] = '1/10', 'F'
+        c['_warm'] = {'votes': [[0, '40'], [1, '30'], [99, '30']], '_types': ['i', 'i', 'i'], 'n': 1, 'list': [0, 1]}
+        c['accept_equal'] = True
+        if c['quota'] is not None:
+            c['quota'], c['quota_fraction'], c['_qftype'] = 'hare', '1/10', 'F'
+    else:
+        c['_warm'] = {k: o[k] for k in INPUT_KEYS[c['op']] if k in o}
+    if rng.random() < 0.5:
+        c['_warm_cfg'] = {k: o[k] for k in CONFIG_KEYS[c['op']] if k in o}
+    return _demote_inexact(c)
 
 
 def gen_tiebreak(rng):
@@ -1210,6 +1571,27 @@ def _gen(rng, tier):
         yield gen_edge(rng)
     for _ in range(150 * scale):
         yield gen_alt_ranks(rng)
+    # audit dimensions (GENERATOR_CHECKLIST): numeric types, magnitudes, structure, state, parameters
+    for _ in range(150 * scale):
+        yield gen_numeric(rng)
+    for _ in range(300 * scale):
+        yield gen_openlist(rng, rich=True)
+    for _ in range(100 * scale):
+        yield gen_openlist(rng, rich=rng.random() < 0.5, huge=True)
+    for _ in range(60 * scale):
+        yield gen_falsy_openlist(rng)
+    for _ in range(40 * scale):
+        yield gen_rel_boundary(rng, huge=True)
+    for _ in range(40 * scale):
+        yield gen_quota_selector(rng, huge=True)
+    for _ in range(120 * scale):
+        yield gen_struct(rng)
+    for _ in range(200 * scale):
+        yield gen_twice(rng)
+    for _ in range(12 * scale):
+        c = gen_decimal_context(rng)
+        if c is not None:
+            yield c
     # the witnesses of the two repaired defects, always
     yield {'op': 'rel_threshold', 'votes': [[0, '5'], [1, '95']], '_types': ['i', 'i'], 'threshold': '1/20', '_ttype': 'F',
            'accept_equal': True, '_tags': ['rel_boundary', 'rel_boundary_5pct']}
